@@ -42,11 +42,13 @@ Sem(e) ==
                                       e.post[i] = [e.pre[i] EXCEPT !.o = e.pre[i].o + e.to - FirstOffset(e.pre)] ]
       [] e.op = "move_end"   -> [ moved |-> Len(e.post) = n /\ \A i \in 1..n :
                                       e.post[i] = [e.pre[i] EXCEPT !.o = e.pre[i].o + e.to - LastOffset(e.pre, e.hold)] ]
+      [] e.op = "append_partial" -> [ argument_kept |-> e.arg_after = e.arg_pre ]
       [] OTHER               -> [ known_op |-> FALSE ]
 
 Clauses(e) ==
     IF PROP = "C14" THEN
-        [ input_unchanged |-> e.pre_after = e.pre /\ e.meta_after = e.meta_pre,
+        [ input_unchanged |-> e.pre_after = e.pre /\ e.meta_after = e.meta_pre
+                              /\ (e.op = "append_partial" => e.arg_after = e.arg_pre),     \* the appended argument is an input too
           no_share |-> e.shared = 0 ]
     ELSE IF e.exc # "" THEN [ no_exc |-> e.op = "get_oob" /\ e.exc = "IndexError" ]
     ELSE IF e.op = "get_oob" THEN [ raises |-> FALSE ]
